@@ -15,8 +15,19 @@ fired = False
 TRACED = ("experimaestro/run.py", "sim/rtasks.py")
 
 
+at_lock = False
+
+
 def local(frame, event, arg):
-    global count, fired
+    global count, fired, at_lock
+    if event == "line" and not at_lock:
+        import linecache
+
+        if "lock.acquire(" in linecache.getline(frame.f_code.co_filename, frame.f_lineno):
+            # about to (try to) take the run lock: tell the harness
+            at_lock = True
+            with open(sitefile + ".atlock", "w") as f:
+                f.write("1")
     if event == "line" and not fired:
         count += 1
         if count == n:
